@@ -111,6 +111,19 @@ CHECKS = {
         technique="TLA+ load-routine model (TLC exhaustive) + model-generated histories x enumerated faults on the code + TLC trace monitor",
         design_ref="DESIGN.md section 5 C13",
     ),
+    "C14": dict(
+        level="fault_enumeration",
+        text="Sink.tla models how a failing sink write reaches the caller with and without the bufio write buffer "
+             "(sticky error, Close flushes) and TLC checks that every failure is reported. For TLC-simulated writer "
+             "histories x option vectors the harness injects sink failures at write-call indexes and byte offsets, opens "
+             "strict prefixes of the good file, and reads through a ReaderAt that fails or short-reads at call indexes; "
+             "IOMon.tla requires an error for every fired sink fault / truncation and complete rows whenever no error "
+             "was reported.",
+        note="Quick tier samples <=30 positions per fault kind and scenario (boundaries +-1 always included); thorough "
+             "enumerates up to 1500 per kind (all offsets and prefixes of files <=6 kB). Sinks obey the io.Writer contract.",
+        technique="TLA+ error-propagation model (TLC exhaustive) + model-generated histories x enumerated I/O faults on the code + TLC trace monitor",
+        design_ref="DESIGN.md section 5 C14",
+    ),
     "C17": dict(
         level="model_checking",
         text="Reset.tla models which slice-typed footer fields alias the live column writers once a row group is "
